@@ -330,6 +330,9 @@ class Depth(object):
                     m = re.match(r'^len\(%s\) - (\d+)$' % re.escape(norm(f.value)), norm(e.args[0])) if e.args else None
                     if m:
                         k = int(m.group(1))
+                    elif e.args and re.match(r'^-(\d+)$', norm(e.args[0])):
+                        # insert(-k, x): the same position, k below the top, wherever the list has k items
+                        k = int(norm(e.args[0])[1:])
                     if k is None:
                         self.st[sq]['problems'].append((e, 'insert position `%s` is not modelled' % (norm(e.args[0]) if e.args else '?')))
                     else:
